@@ -25,12 +25,18 @@ Verif.Model.WmptOps; `abs` = the spec tree of an in-memory node):
   C09_model        after ANY history of Update / Delete with 32-byte keys on an in-memory trie, the model trie represents
                    the spec trie of the history and `Weight()` = the sum of the live weights
 
+  C09_through_storage   the same for histories that interleave Update / Delete / Root() with Commit at ANY collapse level
+                   (subtrees collapsed to references are resolved from storage on demand — the code path of fix cd97817):
+                   at every point `Weight()` = sum of the live weights of the spec trie of the history, `Root()` = its hash, and
+                   `GetBlockProof(b)` names, for every block, the key whose cumulative-weight interval contains b
+
 See notes/C09.md for what ties these to the implementation-shaped model and what is checked by correspondence only.
 -/
 import Verif.Lemmas.WmptSpec
 import Verif.Lemmas.WmptRun
 import Verif.Lemmas.WmptCanon
 import Verif.Lemmas.WmptModelRun
+import Verif.Lemmas.WmptHistoryInv
 namespace Verif.Props.C09
 open Verif.Wmpt
 
@@ -160,6 +166,29 @@ theorem C09_model (H : Bytes → Bytes) (ops : List Op) (hwf : OpsWF ops) :
   refine ⟨g.abs_eq, ?_⟩
   rw [← run_weight ops, ← g.weight, weight_normRoot]
   rfl
+
+/-- Histories with commits at any collapse level and resolve-on-demand: weight and ownership follow the content at
+    every point of the history (committed or not). `hok`: sizes and weights stay below 2^64; `hinj`: no two different
+    nodes of a committed spec trie collide under H (relative injectivity). -/
+theorem C09_through_storage (H : Bytes → Bytes) (hlen : ∀ x, (H x).length = 32) (ops : List HOp)
+    (hall : ∀ op ∈ ops, op.plain ∧ op.wf)
+    (hok : ∀ p q, ops = p ++ q → RepOps.PTOK (specRun p))
+    (hinj : ∀ p lvl q, ops = p ++ .commit lvl :: q → HashInj H (fun x => PT.Sub x (specRun p))) :
+    (hrun H ops).t.weight = entriesWeight (specRun ops).entries ∧
+    (rootHash H (hrun H ops).t).2 = PT.hash H (specRun ops) ∧
+    ∀ b, 1 ≤ b → b ≤ (specRun ops).weight →
+      ∃ k v key proof, ownerSpec (specRun ops).entries b = some (k, v) ∧ RepMore.keybytesToHex key = k ∧
+        (blockProof H (hrun H ops).t b).2 = .ok (key, proof) := by
+  have hi := hinv_run hlen ops hall hok hinj
+  refine ⟨?_, (rep_rootHash _ hi.rep hi.proper hi.notNil).2, ?_⟩
+  · rw [← weight_eq_entriesWeight]
+    exact hi.rep.weight
+  · intro b hb1 hb
+    obtain ⟨k, v, key, ho, _, hk, _, hbp⟩ :=
+      blockProof_rep' hlen (hrun H ops).t (specRun ops) 64 b hi.hasDb hi.rep hi.proper hi.upDirty hi.uniform
+        (by decide) (by decide) (hok ops [] (by simp)) hb1 hb
+    rw [owner_eq_ownerSpec _ b hb1 hb] at ho
+    exact ⟨k, v, key, _, ho, hk, hbp⟩
 
 /-- non-vacuity of the history theorems: delete-then-reinsert and a different insertion order give the same trie -/
 example :
